@@ -25,7 +25,7 @@ for pid in ids:
         "engine": "lean4-model+correspondence",
         "level_claimed": {"category": "proof", "text": cfg["level_text"], "design_ref": cfg.get("design_ref", f"DESIGN.md section 6, {pid}")},
         "level_note": cfg["level_note"],
-        "technique": cfg.get("technique", "Lean 4 theorems over a hand-written executable model; model tied to /repo by translator-regenerated tables and a differential correspondence run (shadow crate + Lean driver)"),
+        "technique": cfg.get("technique", "Lean 4 theorems over a hand-written executable model; model tied to /repo by (1) translator-regenerated tables, (2) function bodies translated from the Rust source on every run (Generated/Fns.lean) with bridge/refinement theorems to the model where proved, and (3) a differential correspondence run (shadow crate + Lean driver) in which implementation, model and translated source must agree"),
     })
 m = {
     "version": 1,
@@ -40,7 +40,7 @@ m = {
     "engines": [
         {"name": "lean4-model+correspondence", "path": "lean/ harness/ translate/ check",
          "serves_properties": [c["property_id"] for c in checks],
-         "kind_free_text": "Lean 4 proofs (lake build + #print axioms audit, leanchecker in thorough) over a model; translator (translate/extract.py) regenerates Generated/*.lean from /repo each run; Rust harness runs /repo's source (shadow crate with shim libc, plus the real crate) and the compiled Lean driver replays the same inputs through the model"}
+         "kind_free_text": "Lean 4 proofs (lake build + #print axioms audit, leanchecker in thorough) over a model; translator (translate/extract.py: constants, structural facts, fake! arm table, and function bodies via rs2lean.py) regenerates Generated/*.lean from /repo each run; bridge theorems (InjModel/Tie) relate translated functions to the model; Rust harness runs /repo's source (shadow crate with shim libc, plus the real crate) and the compiled Lean driver replays the same inputs through the model"}
     ],
     "checks": checks,
     "notes": "Every check: translator -> lake build of the property's theorem module -> cargo build of the harness from /repo's working tree -> correspondence lines through the Lean driver -> verdict. See DESIGN.md.",
